@@ -5,6 +5,11 @@ K = 'kawin/precipitation/KWNEuler.py'
 B = 'kawin/precipitation/KWNBase.py'
 PP = 'kawin/precipitation/PrecipitationParameters.py'
 ENTRIES = [
+    Entry('rebreak-F30', N, [("        if self.GBk >= self.description.maxRatio:", "        if self.GBk > self.description.maxRatio:")], 'R14.9'),
+    Entry('evaluator-mask-inclusive-only', N, [("        if self.GBk >= self.description.maxRatio:", "        if self.description.maxRatio < self.GBk:")], 'R14.9'),
+    Entry('benign-validator-swapped-operands', N, [("        if self.GBk >= self.description.maxRatio:", "        if self.description.maxRatio <= self.GBk:")], kind='benign'),
+    Entry('benign-validator-negated', N, [("        if self.GBk >= self.description.maxRatio:", "        if not (self.GBk < self.description.maxRatio):")], kind='benign'),
+    Entry('benign-both-inclusive', N, [("        if self.GBk >= self.description.maxRatio:", "        if self.GBk > self.description.maxRatio:"), ("        indices = gbk < self.maxRatio", "        indices = gbk <= self.maxRatio")], kind='benign'),
     Entry('gamma-setter-no-reset', N, [('        self._gamma = value\n        self._resetFactors()', '        self._gamma = value')], 'R14.1'),
     Entry('gbenergy-setter-no-reset', N, [('        self._gbEnergy = value\n        self._resetFactors()', '        self._gbEnergy = value')], 'R14.1'),
     Entry('description-setter-no-reset', N, [('        self._description = value\n        self._resetFactors()\n        for callback', '        self._description = value\n        for callback')], 'R14.1'),
